@@ -292,6 +292,27 @@ Theorem C03_elemname_roundtrip : forall ident name x, ident_w ident = true -> te
 Proof. exact elemname_roundtrip. Qed.
 Print Assumptions C03_elemname_roundtrip.
 
+(* the whole (interface ..) of a cell: all ports come back, in order *)
+Theorem C03_interface_roundtrip : forall ps xs, emap port_sexp ps = EmOk xs -> forallb port_w ps = true ->
+  uniq_ci (map po_ident ps) = true -> uniq_x (map po_name ps) = true ->
+  parse_interface (SList (KW "interface" :: xs)) = Ok ps.
+Proof. exact interface_roundtrip. Qed.
+Print Assumptions C03_interface_roundtrip.
+(* a whole (instance ..) construct with its reference and properties, in a reader context [cx] in
+   which the referenced cell is declared (library l resolved to l itself, cell c found under its
+   exact identifier, view "netlist"): the instance comes back with the ports of that cell *)
+Theorem C03_instance_roundtrip : forall cx insts lib cell i x l c cs C,
+  inst_sexp [] lib cell i = EmOk x -> in_ref i = Some (l, c) ->
+  elem_w (in_ident i) (in_name i) = true -> forallb prop_w (in_props i) = true ->
+  ident_w l = true -> ident_w c = true ->
+  resolve_lib cx (Some l) = Ok (l, cs) -> find_cell c cs = Some C -> ce_ident C = c ->
+  ce_view C = Some (K "netlist") ->
+  ident_taken (in_ident i) (map (fun ip : einst => in_ident (fst ip)) insts) = false ->
+  name_taken (in_name i) (map (fun ip : einst => in_name (fst ip)) insts) = false ->
+  exists args, x = SList (KW "instance" :: args) /\ parse_instance cx insts args = Ok (i, ce_ports C).
+Proof. exact inst_roundtrip. Qed.
+Print Assumptions C03_instance_roundtrip.
+
 (* The general statement over the decidable class [writable] (Fmt/EdifEmit.v: what the reader
    checks on the written file, minus the open findings: "&_" buses, bit-like scalar names, names
    with * ?, non-ASCII text, line breaks in strings). NOT PROVED. Every run evaluates, on every
